@@ -50,6 +50,13 @@ CHECKS["C08"] = dict(
     note="Trusted: VHDL-subset semantics, reference interpreter, z3. Storage inference for intermediates = dependence on pre-activation contents, decided for all inputs per enumerated program.",
     technique="2-safety (noninterference) SMT query over interpreted emitted VHDL + must-reject oracle from the reference interpreter",
 )
+CHECKS["C18"] = dict(
+    category="translation_validation",
+    text="Every std helper of the statement (population counts, leading/trailing counts, one_hot/is_one_hot, reverse_bits, rol/ror, shift-fills, repeat/stretch/pads, concat, apply_mask/Mask, batched/select_batch, minimum/maximum/min_element/max_element/min_index/max_index, count, clamp, count_elements_while/until, choose_first/select/cond, binary_fold/batched_fold) is compiled in a concurrent wrapper for widths 1..5 (quick) / 1..8 (thorough), list lengths <=7, batch sizes 2/3/6; z3 proves output == bit-loop definition for all inputs. BitwiseCrc: one step of 1..3 bits from an arbitrary register (inductive over message length) equals polynomial division.",
+    design_ref="DESIGN.md 3/C18",
+    note="Trusted: VHDL-subset semantics, the bit-loop specifications in vfw/props/c18.py, z3. Python-constant path of the helpers is not separately decided here (it shares the code path: helpers are ordinary cohdl functions evaluated by the same operators C09 covers).",
+    technique="bounded symbolic translation validation: z3 over interpreted emitted VHDL vs bit-loop definitions",
+)
 NA = {}
 manifest = {
     "version": 1,
